@@ -80,6 +80,9 @@ pub fn read_graphml_string(string: &str, specs: GraphSpecs) -> Result<Graph<Stri
                         edge_weight_attr_name = id;
                     }
                 }
+                b"graph" => {
+                    directed = get_graph_directed(e)?;
+                }
                 _ => (),
             },
             Ok(Event::Start(ref e)) => {
